@@ -86,6 +86,8 @@ def _gen_adapter(rng, uid, allow_prefix=True, allow_auth=False):
         a = {"a": "hdr", "name": f"X-Ad-{uid}", "value": f"v{uid}"}
     elif r < 0.56:
         return {"a": "drop", "tag": f"d{uid}"}
+    elif r < 0.64:
+        return {"a": "fail", "name": f"X-Fail-{uid}", "value": f"f{uid}"}
     elif r < 0.8 or not allow_prefix:
         a = {"a": "wrap", "tag": f"w{uid}"}
     else:
@@ -123,6 +125,8 @@ def _sibling_spec(rng, spec, uid):
             a["tag"] = f"w{uid}{i}"
         elif a["a"] == "drop":
             a["tag"] = f"d{uid}{i}"
+        elif a["a"] == "fail":
+            a["name"], a["value"] = f"X-Fail-{uid}{i}", f"f{uid}{i}"
         elif a["a"] == "auth":
             if a["kind"] == "bauth":
                 a["password"] = a["password"] + "-other"
@@ -197,6 +201,9 @@ def gen_request(rng, k, node, nid, fault_rate, kinds):
     else:
         net["body"] = rng.choice(["", "{}", "{\"a\": [1, 2]}", "\"s\"", "3", "null", "[{\"x\": \"ü\"}]"])
     op["net"] = net
+    if rng.random() < 0.25:
+        # honoured only when the chain contains a failing adapter of the caller
+        op["adfail"] = rng.choice(["pre", "post"])
     return op
 
 
@@ -579,6 +586,19 @@ def check_request(world, op, req, exp, outcome, after):
     fault = net.get("fault")
     seen = op.get("_seen", [])
     k = op["k"]
+    adfail = op.get("adfail") if exp.get("can_fail") else None
+    if adfail == "pre":
+        # the caller's own adapter raised before the request was sent: nothing goes out, the caller
+        # gets the exception, its objects are untouched
+        world.stats["adapter_failed_pre"] = world.stats.get("adapter_failed_pre", 0) + 1
+        if seen:
+            raise Violation("fault", "request-sent-after-adapter-failure", f"op {k}: {len(seen)} request(s) reached the transport")
+        if outcome[0] != "exc":
+            raise Violation("fault", "adapter-failure-swallowed", f"op {k}: returned {_plain(outcome[1])!r}")
+        h0, p0, d0 = after
+        if h0 != req["headers"] or p0 != req["params"] or d0 != req["data"]:
+            raise Violation("side-effect", "caller-object-modified", f"op {k} (failed in an adapter)")
+        return
     if not seen and outcome[0] == "exc":
         raise Violation("request", "failed-before-send",
                         f"op {k} never reached the transport: {outcome[1]!r}")
@@ -619,7 +639,9 @@ def check_request(world, op, req, exp, outcome, after):
                         f"op {k}: headers {req['headers']!r}->{h0!r} params {req['params']!r}->{p0!r} data {req['data']!r}->{d0!r}")
     # result
     raw = bool(op.get("raw"))
-    must_fail = fault in hw.HARD_FAULTS or (
+    if adfail == "post":
+        world.stats["adapter_failed_post"] = world.stats.get("adapter_failed_post", 0) + 1
+    must_fail = adfail == "post" or fault in hw.HARD_FAULTS or (
         not raw and fault in ("not_utf8", "not_json"))
     if must_fail:
         if outcome[0] != "exc":
